@@ -37,6 +37,8 @@ class MirDB:
                 continue
             self.fns.append(f)
             self.by_name.setdefault(f.name, []).append(f)
+            if f.params and re.match(r'^&(?:mut )?[A-Za-z_:]+$', f.params[0][1].strip()) and '<impl at' in f.name:
+                f.recv = f.params[0][1].strip().lstrip('&').replace('mut ', '').split('::')[-1]
             info = self._info(f)
             self.meta[id(f)] = info
             self.by_method.setdefault(info['method'], []).append(f)
@@ -124,13 +126,29 @@ class MirDB:
             selfty, trait, meth = m.group(1).strip(), m.group(2).strip(), m.group(3)
             selfty = engine.type_bindings.get(selfty, selfty)
             full = re.match(r'^<(.*) as (.*)>::', callee, re.S)
+            # TryInto -> TryFrom (blanket impl): pick `try_from` by parameter / result types
+            if last_seg(trait) == 'TryInto' and meth == 'try_into':
+                fm = re.match(r'^<(.*) as (?:[A-Za-z_:]*)TryInto<(.*)>>::try_into$', callee.strip(), re.S)
+                if fm:
+                    src, dst = norm_ty(fm.group(1)), norm_ty(fm.group(2))
+                    cands = [f for f in self.by_method.get('try_from', []) if len(f.params) == 1 and norm_ty(f.params[0][1]) == src
+                             and norm_ty(f.ret).startswith('Result<' + dst + ',')]
+                    if len(cands) == 1:
+                        return cands[0]
+                return None
             # Into -> From
             if last_seg(trait) == 'Into' and meth == 'into':
                 fm = re.match(r'^<(.*) as (?:[A-Za-z_:]*)Into<(.*)>>::into$', callee.strip(), re.S)
                 if fm:
                     src, dst = fm.group(1), fm.group(2)
-                    return self._find_impl(meth='from', trait_pred=lambda t: t and norm_ty(t) == norm_ty('From<%s>' % src),
-                                           self_pred=lambda s: norm_ty(s) == norm_ty(dst))
+                    r = self._find_impl(meth='from', trait_pred=lambda t: t and norm_ty(t) == norm_ty('From<%s>' % src),
+                                        self_pred=lambda s: norm_ty(s) == norm_ty(dst))
+                    if r is not None:
+                        return r
+                    cands = [f for f in self.by_method.get('from', []) if len(f.params) == 1 and norm_ty(f.params[0][1]) == norm_ty(src)
+                             and norm_ty(f.ret) == norm_ty(dst)]
+                    if len(cands) == 1:
+                        return cands[0]
                 return None
             tl = last_seg(trait)
             return self._find_impl(meth, trait_pred=lambda t: t is not None and last_seg(t) == tl,
@@ -183,6 +201,11 @@ class MirDB:
             c = self.consts.get(caller_fn.name + '::' + pm.group(1))
             if c and len(c) == 1:
                 return c[0]
+            if c:
+                # macro-generated functions share one name: a function's promoted constants are printed right after it
+                later = [f for f in c if f.start_line > caller_fn.start_line and f.span_file == caller_fn.span_file]
+                if later:
+                    return min(later, key=lambda f: f.start_line)
             return None
         last = t.split('::')[-1]
         cands = self.consts_by_last.get(last, [])
